@@ -14,7 +14,7 @@ NOT_PROVED = ["both Coq models (class merging, and the parent-array union-find w
               "hand-written models of _labeled.cpp: their tie to the compiled code is the correspondence check",
               "std::map is modelled as an association list"]
 BUDGET_S = {"quick": 100, "thorough": 1200}
-DTYPES = ["bool", "uint8", "int8", "uint16", "int16", "uint32", "int32", "uint64", "int64", "float32", "float64"]
+DTYPES = ["bool", "uint8", "int8", "uint16", "int16", "uint32", "int32", "uint64", "int64", "float32", "float64", "float16"]
 
 
 def components(fg, shape, offs):
@@ -130,8 +130,10 @@ def cases(ctx):
         p = rng.choice([0.3, 0.5, 0.7, 0.9])
         if dtype == "bool":
             nzv = [1]
+        elif dtype == "float16":
+            nzv = [1, 0.25, -0.5, 6e-5, 2, -7.5, 0.999]            # |v| < 1 must still count as foreground
         elif dtype.startswith("float"):
-            nzv = [1, 2, -4, 1e-3, -7.5, 3e9]
+            nzv = [1, 2, -4, 1e-3, -7.5, 3e9, 0.25, -0.5]
         elif dtype.startswith("uint"):
             nzv = [1, 2, 200, gen.INT_INFO[dtype][1]]
         else:
@@ -159,7 +161,7 @@ def cases(ctx):
                 b[rng.randrange(len(b))] = 1
             bc = {"shape": sh, "vals": b}
         yield {"dtype": dtype, "shape": shape, "vals": vals, "bc": bc, "layout": rng.choice(LAYOUTS),
-               "out": rng.random() < 0.2}
+               "out": rng.random() < 0.2, "scribble": bc == "none" and rng.random() < 0.5}
 
 
 def run_one(ctx, a0, a, bc_arg, bc_arr, use_out=False):
@@ -235,8 +237,20 @@ def run_case(ctx, case):
     else:
         arr = np.array(bc["vals"]).reshape(bc["shape"])
         arg = arr.astype(bool)
+    if bc == "none" and case.get("scribble"):
+        from mahotas import morph
+        for probe in (np.zeros([2] * nd, np.int32), a0):
+            for code in (1, None):
+                try:
+                    e = morph.get_structuring_elem(probe, code)
+                    if isinstance(e, np.ndarray) and e.flags.writeable:
+                        e[...] = 1          # the caller owns the array it was handed
+                except Exception:
+                    pass
     r = run_one(ctx, a0, a, arg, arr, case.get("out", False))
     if r is not None:
+        if case.get("scribble") and r.detail is not None:
+            r.detail["after"] = "overwriting the arrays returned by morph.get_structuring_elem"
         return r
     kind = bc if isinstance(bc, str) else "arbitrary"
     return Result(True, sum(1 for v in case["vals"] if v) >= 2, None, "%s/%dD/%s" % (kind, nd, "float" if dtype.startswith("f") else "int"))
